@@ -919,6 +919,9 @@ func (m *Machine) rangeIter(x Value) Value {
 			}
 		case 2:
 			// explore orders: all permutations up to 3 entries, rotations + reversal above
+			if n >= 2 {
+				m.mapOrders++
+			}
 			if n >= 2 && n <= 3 {
 				for i := 0; i < n-1; i++ {
 					j := i + m.Choose(n-i)
